@@ -84,6 +84,16 @@ class Simple:
         return r
 
 
+def trace_vals(f):
+    """values of the ghost / observation variables in a counterexample trace"""
+    vals = {}
+    for st in f.get("trace") or []:
+        if st.get("stepType") == "assignment" and re.search(r"(ghost_|OBS_|IN_)", str(st.get("lhs", ""))) and "value" in st:
+            v = st["value"]
+            vals[str(st["lhs"])] = v.get("binary") if (v.get("name") == "float" and v.get("binary")) else v.get("data", v.get("binary"))
+    return vals
+
+
 def finish_special(rep, pid, failures_are_inputless=True, extra_cov=None, known_match=None):
     """verdicts for the special checks: a failed obligation is reported with the verifier's output (and the trace values
     of the ghost inputs where present); there is no lane-wise native replay for these contracts unless the caller made one"""
